@@ -482,6 +482,15 @@ func init() {
 // TIFF block carries its own byte-order mark: the blob is identical in both encodings of the
 // record, so whatever the library derives from it must be identical too.
 func nikonNote(c *Ctx, rec *gen.Record) {
+	if y := c.L("gen:y"); rec.MakerNote == nil && y.Chance(1, 12) {
+		// a maker note of 1..4 bytes lives in the slot like any short UNDEFINED value (the camera
+		// makes whose notes the library follows as directories are the interesting ones)
+		mk := []string{"Canon", "NIKON CORPORATION", "SONY", "Apple"}[y.Intn(4)]
+		rec.Make = &mk
+		rec.MakerNote = y.Sub().Bytes(1 + y.Intn(4))
+		c.Inc("probe:maker-note-that-fits-the-slot")
+		return
+	}
 	x := c.L("gen:x")
 	if !x.Chance(1, 8) {
 		return
